@@ -151,6 +151,7 @@ def obs_impl(style):
         'keys=' + show_list([enc(k) for k in style.keys()]),
         'items=' + show_list([enc(style.item(i)) for i in range(-(n + 1), n + 2)]),
         'text=' + enc(style.cssText),
+        'ptext=' + enc(style.cssText),
         'ro=%d' % (1 if style._readonly else 0)])
 
 
@@ -169,11 +170,30 @@ def vobs_impl(v):
         'items=' + show_list([enc(v.item(i)) for i in range(-(n + 1), n + 2)]),
         'seq=' + show_list(seq),
         'reported=' + show_list(['%s/%s' % (enc(k), enc(v.getVariableValue(k))) for k in v.keys()]),
-        'serialized=' + show_list(['%s/%s' % (enc(a), enc(b)) for a, b in ser])])
+        'serialized=' + show_list(['%s/%s' % (enc(a), enc(b)) for a, b in ser]),
+        'text=' + enc(v.cssText)])
 
 
 def opt(x):
     return 'None' if x is None else enc(x)
+
+
+def prefs_line(pf):
+    return 'prefs ' + ' '.join(['%d' % bool(pf[k]) for k in G.PREF_BOOLS] + [enc(pf[k]) for k in G.PREF_STRS])
+
+
+class Prefs:
+    """the serializer preferences switched to `pf` for the duration of the block, then back to the defaults"""
+
+    def __init__(self, cu, pf):
+        self.cu, self.pf = cu, pf
+
+    def __enter__(self):
+        for k, v in self.pf.items():
+            setattr(self.cu.ser.prefs, k, v)
+
+    def __exit__(self, *a):
+        self.cu.ser.prefs.useDefaults()
 
 
 # ----------------------------------------------------------------------------------------------------
@@ -204,9 +224,75 @@ class Session:
         try:
             for op in ops:
                 self.one_decl_op(style, op, spec)
+                if self.rng.random() < 0.25:
+                    self.probe_prefs_decl(style, G.gen_prefs(self.rng))
+            self.probe_prefs_decl(style, G.gen_prefs(self.rng))
+            self.probe_prefs_decl(style, G.gen_prefs(self.rng, single=True))
         finally:
             cu.log.raiseExceptions = True
+            cu.ser.prefs.useDefaults()
         return style
+
+    def probe_prefs_decl(self, style, pf):
+        """cssText / getCssText(separator) under non-default serializer preferences; the value texts under these
+        preferences and `property.valid` are tabulated from the implementation (parameters of the model)"""
+        cu = self.cu
+        props = style.getProperties(all=True)
+        keys = [(p.name, p.propertyValue.cssText, p.priority) for p in props]
+        sep = self.rng.choice(['\n', '', ' ', ';', '\n  '])
+        old = cu.log.raiseExceptions
+        cu.log.raiseExceptions = False
+        try:
+            with Prefs(cu, pf):
+                with time_limit(20):
+                    vts = [p.propertyValue.cssText for p in props]
+                    valids = [bool(p.valid) for p in props] if pf['validOnly'] else None
+                    text = style.cssText
+                    text_sep = style.getCssText(sep)
+        finally:
+            cu.log.raiseExceptions = old
+        self.emit(prefs_line(pf), 'ok', ('prefs', pf))
+        seen = set()
+        for i, k in enumerate(keys):
+            if k[1] not in seen:
+                seen.add(k[1])
+                self.emit('vt %s %s' % (enc(k[1]), enc(vts[i])), 'ok', 'vt')
+            if valids is not None:
+                self.emit('pvalid %s %s %s %d' % (enc(k[0]), enc(k[1]), enc(k[2]), valids[i]), 'ok', 'pvalid')
+        self.emit('ptext', enc(text), ('cssText under', pf))
+        self.emit('psep %s' % enc(sep), enc(text_sep), ('getCssText(%r) under' % sep, pf))
+        self.ctx.count('prefs-probe:decl')
+        self.oracle_text(style, pf, text, vts, props)
+
+    def oracle_text(self, style, pf, text, vts, props):
+        """independent of the model: the rendering lists exactly the entries — every entry (keepAllProperties) or
+        the effective entry of every name (otherwise), in block order, each as `name … value [priority]`"""
+        import re
+        if pf['validOnly'] or not pf['lineSeparator'].strip('\n') == '' or pf['lineSeparator'] == '':
+            return
+        want = []
+        eff = style.getProperties()
+        for p, vt in zip(props, vts):
+            if not pf['keepAllProperties'] and not any(p is e for e in eff):
+                continue
+            nm = p.name if (pf['defaultPropertyName'] and not pf['keepAllProperties']) else p.literalname
+            want.append((nm, ' '.join(vt.split())))
+        nocomment = re.sub(r'/\*.*?\*/', '', text, flags=re.S)
+        got = []
+        for line in nocomment.split(pf['lineSeparator']):
+            line = line.strip()
+            if not line:
+                continue
+            if line.endswith(';'):
+                line = line[:-1]
+            name, _, rest = line.partition(':')
+            got.append((name.strip(), rest))
+        ok = len(got) == len(want) and all(g[0] == w[0] and ' '.join(g[1].split()).startswith(
+            ' '.join(re.sub(r'/\*.*?\*/', '', w[1], flags=re.S).split())) for g, w in zip(got, want))
+        if not ok and not any('\n' in vt or ';' in vt or ':' in vt for vt in vts):
+            self.ctx.violate('cssText lists exactly the entries (all, or the effective one per name) in block order',
+                             {'ops': G.show_ops(self.history), 'prefs': {k: v for k, v in pf.items() if v != G.PREF_DEFAULTS[k]}},
+                             {'cssText': text, 'entries': want, 'read': got})
 
     def call(self, f):
         try:
@@ -375,9 +461,36 @@ class Session:
                     self.emit('vget %s' % enc(nm), enc(v[nm]), ('v[]', nm))
                     self.emit('vhas %s' % enc(nm), '1' if nm in v else '0', ('vhas', nm))
                 self.oracle_vars(v, op)
+                if self.rng.random() < 0.3:
+                    self.probe_prefs_vars(v, G.gen_prefs(self.rng))
+            self.probe_prefs_vars(v, G.gen_prefs(self.rng))
+            self.probe_prefs_vars(v, G.gen_prefs(self.rng, single=True))
         finally:
             cu.log.raiseExceptions = True
+            cu.ser.prefs.useDefaults()
         return v
+
+    def probe_prefs_vars(self, v, pf):
+        cu = self.cu
+        vals = [it.value[1] for it in v.seq if it.type == 'var']
+        keys = [x.cssText for x in vals]
+        old = cu.log.raiseExceptions
+        cu.log.raiseExceptions = False
+        try:
+            with Prefs(cu, pf):
+                with time_limit(20):
+                    vts = [x.cssText for x in vals]
+                    text = v.cssText
+        finally:
+            cu.log.raiseExceptions = old
+        self.emit(prefs_line(pf), 'ok', ('prefs', pf))
+        seen = set()
+        for k, t in zip(keys, vts):
+            if k not in seen:
+                seen.add(k)
+                self.emit('vt %s %s' % (enc(k), enc(t)), 'ok', 'vt')
+        self.emit('vptext', enc(text), ('variables cssText under', pf))
+        self.ctx.count('prefs-probe:vars')
 
     def oracle_vars(self, v, op):
         """the serialisation lists exactly the variables the API reports (checked by reparsing the text)"""
@@ -454,7 +567,7 @@ class C10(Check):
     def run(self, ctx):
         cu = _impl()
         names = self.names(ctx)
-        for part in (self.check_names_live, ):
+        for part in (self.check_names_live, self.check_pref_defaults):
             ctx.phase(part, ctx, names)
         for part in (self.run_corpus, self.corr_dom, self.oracle_attr, self.corr_decl, self.corr_vars):
             ctx.phase(part, ctx, cu, names)
@@ -466,6 +579,20 @@ class C10(Check):
             ctx.disagree('translator: Gen.C10.propertyNames vs CSS2Properties._properties',
                          'profiles.py', live[:5], names[:5])
         ctx.notes['property_names'] = len(names)
+
+    def check_pref_defaults(self, ctx, names):
+        """`SPrefs.default` of the model against a fresh `Preferences()`"""
+        from cssutils.serialize import Preferences
+        if not ctx.model_ok:
+            return
+        live = Preferences()
+        want = prefs_line({k: getattr(live, k) for k in G.PREF_BOOLS + G.PREF_STRS})[len('prefs '):]
+        got = ctx.driver(['pdef'])[0]
+        if got != want:
+            ctx.disagree('default serializer preferences (SPrefs.default vs Preferences.useDefaults)', 'pdef', want, got)
+        for k in G.PREF_BOOLS + G.PREF_STRS:
+            if getattr(live, k) != G.PREF_DEFAULTS[k]:
+                ctx.disagree('default serializer preferences (generator table)', k, getattr(live, k), G.PREF_DEFAULTS[k])
 
     # -- DOM names ------------------------------------------------------------------------------------
     def corr_dom(self, ctx, cu, names):
